@@ -373,6 +373,8 @@ def check_c01(tier, seed):
     out = Outcome("C01", tier, seed)
     design_phys(out, 4 if tier == "quick" else 5, False, False, invs="InvData InvAbs", data=True,
                 what="refinement of the abstract tree by the physical model including stream bytes (InvAbs, InvData)")
+    # ... and of the abstract tree by the API layer on top of it (nested storages, every path spelling, every refusal kind)
+    design_api(out, 4 if tier == "quick" else 5, invs="InvAllowed InvAbs")
     run_batch(out, "edges", "A", edges_namespace(out, tier))
     from . import dirchecks
     run_batch(out, "shapes", "A", dirchecks.shape_histories(out, tier))
@@ -671,6 +673,8 @@ def foreign_handle_batches(out, tier, seed):
 
 def check_c09(tier, seed):
     out = Outcome("C09", tier, seed)
+    # design level: the API layer's path normalisation, case-insensitive lookups and name validation against the abstract model
+    design_api(out, 3 if tier == "quick" else 5, invs="InvAllowed InvNoEffect InvAbs")
     for dn, hs in random_batches(seed + 7, tier, 30, 300, 40, dicts=("A", "B", "C", "D", "E", "G"), deep=False).items():
         run_batch(out, f"random{dn}", dn, hs)
     run_batch(out, "edges", "A", edges_namespace(out, tier))
